@@ -7,6 +7,7 @@ from .values import (Ref, NONE, Obj, Unsupported, FuncVal, BoundMethod, ClassVal
                      SORTS, spec_from_ctype, sortkey, coerce, is_z3, is_real, is_int, is_bool, is_str, is_ref, is_fp,
                      to_real, to_int, to_ref, to_str, to_bool_term, num_args, real_const, concrete)
 from .eng_core import State, Frame
+from .values import SymDict
 
 R = z3.RealSort()
 UF1 = {n: z3.Function('m_' + n, R, R) for n in ('sqrt', 'exp', 'log', 'log10', 'sin', 'cos', 'tan', 'erf', 'asin', 'acos',
@@ -197,6 +198,13 @@ class CallMixin:
             if name == 'extend' and isinstance(args[0], (list, tuple)):
                 base.extend(args[0])
                 return None
+        if isinstance(base, SymDict):
+            if name == 'freeze':
+                def fz(d):
+                    return SymDict([(k, fz(v) if isinstance(v, SymDict) else v) for k, v in d.items])
+                return fz(base)
+            if name == 'items':
+                return [(k, v) for k, v in base.items]
         if isinstance(base, dict):
             if name == 'items':
                 return [(k, v) for k, v in base.items()]
@@ -209,7 +217,7 @@ class CallMixin:
                 return base.get(kc, args[1] if len(args) > 1 else None)
         if isinstance(base, str):
             if name == 'format':
-                return self.fresh('fmt', 'str')
+                return self.format_string(base, args, kwargs)
             if name == 'lower':
                 return base.lower()
             if name == 'upper':
@@ -221,6 +229,37 @@ class CallMixin:
             if name == 'format':
                 return self.fresh('fmt', 'str')
         raise Unsupported('method %s on %r' % (name, base))
+
+    def format_string(self, template, args, kwargs):
+        """str.format for templates with plain {} / {n} placeholders and string / integer arguments: exact concatenation."""
+        import re
+        parts = re.split(r'(\{\d*\})', template)
+        if kwargs or any('{' in p and not re.fullmatch(r'\{\d*\}', p) for p in parts):
+            return self.fresh('fmt', 'str')
+        out = []
+        auto = 0
+        for p in parts:
+            if re.fullmatch(r'\{\d*\}', p):
+                idx = int(p[1:-1]) if len(p) > 2 else auto
+                auto += 1
+                if idx >= len(args):
+                    return self.fresh('fmt', 'str')
+                a = args[idx]
+                if isinstance(a, str) or is_str(a):
+                    out.append(to_str(a))
+                elif isinstance(a, int) and not isinstance(a, bool):
+                    out.append(z3.StringVal(str(a)))
+                elif is_int(a):
+                    out.append(z3.Function('str_of_int', z3.IntSort(), z3.StringSort())(a))
+                else:
+                    return self.fresh('fmt', 'str')
+            elif p:
+                out.append(z3.StringVal(p))
+        if not out:
+            return ''
+        if all(z3.is_string_value(x) for x in out):
+            return ''.join(x.as_string() for x in out)
+        return z3.Concat(*out) if len(out) > 1 else out[0]
 
     def call_property_get(self, base, ci, getter, attr, st, fr):
         fv = FuncVal(ci.file, '%s.%s.getter' % (ci.name, attr), getter, cls=ci.name)
@@ -526,6 +565,8 @@ class CallMixin:
     def instantiate(self, cname, args, kwargs, st, fr, node):
         if hasattr(_bi, cname) and isinstance(getattr(_bi, cname), type) and issubclass(getattr(_bi, cname), BaseException):
             return ExcVal(cname, args)
+        if cname == 'RecursiveDict' and not args:
+            return SymDict(auto=True)
         ext = self.external_spec([cname + '()'], fr)
         if ext is not None:
             return self.apply_external(ext, cname + '()', None, args, kwargs, st, fr, node)
